@@ -110,7 +110,7 @@ impl Check for FormatCheck {
         "fault_enumeration"
     }
     fn rule(&self) -> String {
-        "one run = one of: (1) Sample::serialize/parse identity on arbitrary bit patterns of u8/u32/i32/f32/Complex; (2) FileSink -> file -> FileSource round trip of 0..3*capacity+r samples with seeded short-write and short-read plans injected at the write()/read() symbols (1-byte, sample-1, sample+1, random, large) and seeded drip schedules on both sides; (3) SigMFSource from a recording and from a tar archive (seeded member order, unrelated members) under short reads; (4) AuEncode -> bytes -> AuDecode under chunked delivery, compared with the PCM16 quantisation; (5) TcpSource over a loopback connection whose recv() results are cut to a seeded segmentation (MSG_WAITALL makes each cut exact), incl. 1-byte reads and cuts inside a sample. \
+        "one run = one of: (1) Sample::serialize/parse identity on arbitrary bit patterns of u8/u32/i32/f32/Complex; (2) FileSink -> file -> FileSource round trip of 0..3*capacity+r samples (streams of 4-8 KiB; one run in 40 a default-size stream with more than 1 MiB in one window) with seeded short-write and short-read plans injected at the write()/read() symbols (1-byte, sample-1, sample+1, random, large) and seeded drip schedules on both sides; (3) SigMFSource from a recording and from a tar archive (seeded member order, unrelated members) under short reads; (4) AuEncode -> bytes -> AuDecode under chunked delivery, compared with the PCM16 quantisation; (5) TcpSource over a loopback connection whose recv() results are cut to a seeded segmentation (MSG_WAITALL makes each cut exact), incl. 1-byte reads and cuts inside a sample. \
          Oracle: byte/sample identity with what was written, exact counts. non-trivial = at least one read or write was cut short, or a split fell inside a sample; distinct = hash of the decision list".into()
     }
     fn assumptions(&self) -> Vec<String> {
@@ -638,7 +638,7 @@ impl Check for FileSinkCheck {
     }
     fn rule(&self) -> String {
         "enumerated part: modes {Create, Overwrite, Append} x initial states {absent, empty, non-empty, directory, missing parent directory} x {FileSink, NoCopyFileSink} = 30 cells against the documented truth table (create fails iff the file exists; overwrite leaves exactly the new data; append keeps the old content and adds, creating the file if absent; directories and missing parents are errors). \
-         seeded part: a child process (re-exec of the simulator) streams seeded data through the sink under a seeded feed schedule; the fault plan kills it at the N-th write() on the sink's file after a torn length k (every write index and torn-length class is reachable), or injects short writes / one EINTR without a crash. After each work() the child records how many samples were consumed (acknowledged). Parent oracle: the file is a prefix of pre-existing content + serialised stream and holds at least the acknowledged samples; without a crash it is complete. \
+         seeded part: a child process (re-exec of the simulator) streams seeded data through the sink under a seeded feed schedule (4-8 KiB streams; one run in 30 a default-size stream fed more than 1 MiB); the fault plan kills it at the N-th write() on the sink's file after a torn length k (every write index and torn-length class is reachable), or injects short writes / one EINTR without a crash. After each work() the child records how many samples were consumed (acknowledged). Parent oracle: the file is a prefix of pre-existing content + serialised stream and holds at least the acknowledged samples; without a crash it is complete. \
          non-trivial = the child was killed inside a write that followed at least one acknowledged work(); distinct = (mode, sink, write index, torn length, data size)".into()
     }
     fn assumptions(&self) -> Vec<String> {
@@ -1117,7 +1117,7 @@ impl Check for MappingCheck {
     }
     fn rule(&self) -> String {
         "one run (single worker process so that /proc counts are exact) = a seeded create/drop history of 1..20 streams (sizes 1..8 pages and non page multiples, element sizes dividing and not dividing, some created and dropped on other threads) with canary pages mapped around it, and optionally one fault: the 1st or 2nd mmap of a creation fails with ENOMEM, ftruncate fails with ENOSPC, or the descriptor limit is reached. \
-         Checked: every stream that was created aliases (a window spanning the wrap point, written through one half and read through the other, for seeded offsets incl. every offset of a one-page buffer in the enumerated case); failed creations return Err without unwinding; afterwards the thread's mmap/munmap ledger is empty, the number of deleted-file mappings and of open descriptors is back to the baseline, the canary pages are intact, and a fresh stream still works. \
+         Checked: every stream that was created aliases (a window spanning the wrap point, written through one half and read through the other, for seeded offsets incl. every offset of a one-page buffer in the enumerated case); failed creations return Err without unwinding; no range that was a stream mapping is unmapped a second time after its release; afterwards the thread's mmap/munmap ledger is empty, the number of deleted-file mappings and of open descriptors is back to the baseline, the canary pages are intact, and a fresh stream still works. \
          non-trivial = at least one stream was created and dropped, or a fault fired; distinct = hash of the decision list".into()
     }
     fn assumptions(&self) -> Vec<String> {
